@@ -213,3 +213,57 @@ fn c19_display() {
     assert!(w.n == 6, "C19:display:length");
     assert!(w.b[0] == want[0] && w.b[1] == want[1] && w.b[2] == want[2] && w.b[3] == want[3] && w.b[4] == want[4] && w.b[5] == want[5], "C19:display:bytes");
 }
+
+// Display under formatter flags: a precision (or width) given for the interval as a whole must not cut the canonical text
+// short -- `{:.1}` still renders all of "[a, b]" (seeded change C19-F rendered into a String and handed it to
+// Formatter::pad, which treats a precision as a maximum length). Concrete tokens: the question is about the flags, and
+// concrete data keeps a String-building implementation within CBMC's reach.
+fn display_with_precision(k: u8) {
+    use core::fmt::Write;
+    let a = Tok(3);
+    let b = Tok(7);
+    let i = match k {
+        0 => Interval::TwoSided(a, b),
+        1 => Interval::UpperOneSided(a),
+        _ => Interval::LowerOneSided(b),
+    };
+    let mut w = Buf { b: [0; 16], n: 0 };
+    let res = write!(w, "{:.1}", i);
+    assert!(res.is_ok(), "C19:display:precision:ok");
+    let want: [u8; 6] = match k {
+        0 => [b'[', b'd', b',', b' ', b'h', b']'],
+        1 => [b'[', b'd', b',', b'-', b'>', b')'],
+        _ => [b'(', b'<', b'-', b',', b'h', b']'],
+    };
+    assert!(w.n == 6, "C19:display:precision:truncated-or-padded");
+    assert!(w.b[0] == want[0] && w.b[1] == want[1] && w.b[2] == want[2] && w.b[3] == want[3] && w.b[4] == want[4] && w.b[5] == want[5], "C19:display:precision:bytes");
+}
+// An implementation that renders into a String first goes through alloc::fmt::format, whose growth / UTF-8 machinery is beyond
+// CBMC in the budget; the stub renders into the fixed buffer and copies the bytes into a String with reserved capacity
+// (same text; only the allocation strategy differs). On the pinned tree Display does not call it at all.
+fn format_stub(args: core::fmt::Arguments<'_>) -> String {
+    use core::fmt::Write;
+    let mut w = Buf { b: [0; 16], n: 0 };
+    let _ = w.write_fmt(args);
+    let mut s = String::with_capacity(16);
+    let mut j = 0;
+    while j < 16 {
+        if j < w.n {
+            s.push(w.b[j] as char);
+        }
+        j += 1;
+    }
+    s
+}
+#[kani::proof]
+#[kani::unwind(18)]
+#[kani::stub(alloc::fmt::format, format_stub)]
+fn c19_display_precision_two_sided() {
+    display_with_precision(0);
+}
+#[kani::proof]
+#[kani::unwind(18)]
+#[kani::stub(alloc::fmt::format, format_stub)]
+fn c19_display_precision_one_sided() {
+    display_with_precision(if kani::any() { 1 } else { 2 });
+}
